@@ -85,6 +85,45 @@ type AccSpec struct {
 	Why                  string
 }
 
+// AccExtra is implemented by a driver whose pool has environment events beyond the common
+// alphabet (binding pool: the DOWNSTREAM connection a client is bound to closes). An extra event
+// may close upstream connections; the model then ends the streams on them.
+type AccExtra interface {
+	ExtraEnabled(pool types.ConnectionPool) []string
+	ApplyExtra(pool types.ConnectionPool, ev string) (outcome string)
+}
+
+// step applies one event of the history: a driver-specific extra event or an event of the common alphabet.
+func (a *acc) step(ev string) string {
+	w := a.w
+	if x, ok := w.d.(AccExtra); ok {
+		for _, e := range x.ExtraEnabled(w.pool) {
+			if e != ev {
+				continue
+			}
+			var out string
+			w.lease = nil
+			before := len(vfake.Created)
+			if dl := w.guarded(func() { out = x.ApplyExtra(w.pool, ev) }); dl != "" && w.herr == "" {
+				w.deadlock, w.poisoned, w.stuck = dl, true, true
+				return "self-deadlock"
+			}
+			w.syncConns()
+			w.sweepClosed(ev)
+			w.attempts = len(vfake.Created) - before
+			return out
+		}
+	}
+	out := w.step(ev)
+	if w.herr == "" && w.deadlock == "" {
+		// a connection the pool closed as a consequence of the event (binding pool: the close of one
+		// upstream connection closes the downstream connection, which closes its other upstream
+		// clients) ends the streams on it
+		w.sweepClosed("connection-closed-by-the-pool")
+	}
+	return out
+}
+
 // AccCase is the replayable case of the BFS part.
 type AccCase struct {
 	Pool    string   `json:"pool"`
@@ -109,6 +148,7 @@ type acc struct {
 	stats map[string]int
 	min   [6]int64
 	max   [6]int64
+	from  [6]int64 // values when the monitored span started
 	minW  [6]string
 	n     int // samples taken
 }
@@ -122,7 +162,7 @@ func (a *acc) values() [6]int64 {
 func (a *acc) resetExtremes() {
 	a.mu.Lock()
 	v := a.values()
-	a.min, a.max = v, v
+	a.min, a.max, a.from = v, v, v
 	a.minW = [6]string{}
 	a.n = 0
 	a.on = true
@@ -184,14 +224,15 @@ func (a *acc) counts() (S, K, goAwayOpen int64) {
 	return
 }
 
-func dirOf(v, want int64) string {
+// relOf words the relation of a counter to the model's number for a finding key.
+func relOf(v, want int64, what string) string {
 	switch {
 	case v < 0:
 		return "negative"
 	case v > want:
-		return "above"
+		return "above " + what
 	}
-	return "below"
+	return "below " + what
 }
 
 func (a *acc) check() map[string]sv {
@@ -207,7 +248,7 @@ func (a *acc) check() map[string]sv {
 	add := func(obj, key, detail string) { out[key+"#"+obj] = sv{key, detail + idle} }
 	for i, what := range []string{"host", "cluster"} {
 		if g := v[2+i]; g != S {
-			add(what+"ra", pn+what+" gauge upstream_request_active "+dirOf(g, S)+" the in-flight streams",
+			add(what+"ra", pn+what+" gauge upstream_request_active "+relOf(g, S, "the in-flight streams"),
 				fmt.Sprintf("%s upstream_request_active moved by %d since the pool was built, in-flight streams=%d", what, g, S))
 		}
 		g := v[4+i]
@@ -216,7 +257,7 @@ func (a *acc) check() map[string]sv {
 			lo = K - ga
 		}
 		if g < lo || g > K {
-			add(what+"ca", pn+what+" gauge upstream_connection_active "+dirOf(g, K)+" the open connections",
+			add(what+"ca", pn+what+" gauge upstream_connection_active "+relOf(g, K, "the open connections"),
 				fmt.Sprintf("%s upstream_connection_active moved by %d since the pool was built, open connections=%d (of which %d announced go-away)", what, g, K, ga))
 		}
 	}
@@ -226,15 +267,15 @@ func (a *acc) check() map[string]sv {
 		want = S + int64(w.ext)
 	}
 	if cur != want {
-		add("req", pn+"resource requests "+dirOf(cur, want)+" the in-flight streams",
+		add("req", pn+"resource requests "+relOf(cur, want, "the in-flight streams"),
 			fmt.Sprintf("Requests.Cur=%d, in-flight streams=%d (+%d held by other pools of the cluster), max_requests=%d", cur, S, w.ext, w.cfg.MaxReq))
 	}
 	if cc := v[1]; cc != 0 && cc != K {
-		add("conn", pn+"resource connections "+dirOf(cc, K)+" the open connections",
+		add("conn", pn+"resource connections "+relOf(cc, K, "the open connections"),
 			fmt.Sprintf("Connections.Cur=%d, open connections=%d, max_connections=%d (accepted: 0 = not counted by this pool, or the number of open connections)", cc, K, w.cfg.MaxConn))
 	}
 	if b := w.d.Books(w.pool); b.HasTotal && b.Total != K {
-		add("total", pn+"the pool's connection counter (decides max_connections) "+dirOf(b.Total, K)+" the open connections",
+		add("total", pn+"the pool's connection counter (decides max_connections) "+relOf(b.Total, K, "the open connections"),
 			fmt.Sprintf("totalClientCount=%d, open connections=%d, max_connections=%d", b.Total, K, w.cfg.MaxConn))
 	}
 	return out
@@ -246,7 +287,7 @@ func (a *acc) negatives(cls string) []finding {
 	defer a.mu.Unlock()
 	var out []finding
 	for i, m := range a.min {
-		if m < 0 {
+		if m < 0 && m < a.from[i] { // (a counter that was negative before is the previous event's finding)
 			out = append(out, finding{"pool=" + a.w.d.Name() + " accounting: " + accNames[i] + " negative at a step" + cls,
 				fmt.Sprintf("%s was %d at monitor point %q (values are relative to the moment the pool was built)", accNames[i], m, a.minW[i])})
 		}
@@ -369,7 +410,7 @@ func runHistoryAcc(d Driver, spec AccSpec, cfg Cfg, hist []string, probe bool) (
 			}
 			a.resetExtremes()
 		}
-		res.outcome = w.step(ev)
+		res.outcome = a.step(ev)
 		if w.herr != "" {
 			res.harness = fmt.Sprintf("history %v, event %d (%s): %s", hist, i, ev, w.herr)
 			return
@@ -424,6 +465,9 @@ func runHistoryAcc(d Driver, spec AccSpec, cfg Cfg, hist []string, probe bool) (
 		if !spec.SkipEvents[name] {
 			res.enabled = append(res.enabled, ev)
 		}
+	}
+	if x, ok := d.(AccExtra); ok && !w.poisoned {
+		res.enabled = append(res.enabled, x.ExtraEnabled(w.pool)...)
 	}
 	res.leases = len(w.inflight())
 	res.shutdown = w.shutdown
@@ -659,7 +703,9 @@ search:
 // ---------------------------------------------------------------------------
 // the schedule part (E1)
 
-// AccScenarios is the scenario list of the accounting schedule part. goAwayInReply as in DoomedScenarios.
+// AccScenarios is the scenario list of the accounting schedule part: a sequential prefix, then 2-3
+// threads of one or two events each. "lreset!" is the caller's reset issued whatever the stream's
+// fate so far (it may race the completion of the same stream).
 func AccScenarios() []Scenario {
 	return []Scenario{
 		{"two admissions at max_requests=1", Cfg{0, 1}, nil, [][]string{{"new"}, {"new"}}},
